@@ -3,7 +3,7 @@
 # (/tmp/mut/<prop>_out/<n>/) in a fresh scratch worktree and, if confirmed,
 # keep it as /verif/seeded/<prop>-<n>/.
 prop="$1"; n="$2"
-src="/tmp/mut/${prop}_out/$n"
+src="${MUT_ROOT:-/tmp/mut}/${prop}_out/$n"; out_n=$((n + ${MUT_OFFSET:-0}))
 [ -f "$src/patch.diff" ] || { echo "$prop-$n: no patch"; exit 2; }
 demo=$(ls "$src"/demo*.py 2>/dev/null | head -1)
 [ -n "$demo" ] || { echo "$prop-$n: no demo"; exit 2; }
@@ -23,7 +23,7 @@ echo "$suite" | grep -q "1 failed, 83 passed" || ok=0
 [ -z "$failed" ] || ok=0
 echo "$prop-$n: demo clean rc=$rc_clean, demo mutated rc=$rc_mut, suite: $suite ${failed:+EXTRA FAIL: $failed} => $( [ $ok = 1 ] && echo CONFIRMED || echo REJECTED )"
 if [ $ok = 1 ]; then
-  d="/verif/seeded/$prop-$n"; mkdir -p "$d"
+  d="/verif/seeded/$prop-$out_n"; mkdir -p "$d"
   git -C "$S/w" diff HEAD > "$d/patch.diff"; cp "$demo" "$d/$(basename "$demo")"
   /venv/bin/python - "$src/meta.json" "$d/meta.json" "$prop" "$suite" <<'PY'
 import json, sys
